@@ -11,6 +11,7 @@ import (
 	"time"
 
 	"github.com/bool64/cache"
+	"github.com/cespare/xxhash/v2"
 
 	"verif/ref"
 	"verif/vclock"
@@ -283,7 +284,138 @@ func c07Cells(tier string) []Cell {
 		}
 	}
 
+	// One key in EVERY shard (plus a second key in the first and in the last shard): loops over shards must
+	// cover all of them.
+	for _, b := range backendKinds {
+		for _, ttl := range []string{"5m", "unlimited"} {
+			cells = append(cells, Cell{ID: c07Cell{Backend: b, TTL: ttl, Keys: "allshards", First: -1}.id()})
+		}
+	}
+
 	return cells
+}
+
+// allShardKeys returns one key per shard index plus a second key for shard 0 and for the last shard.
+func allShardKeys() [][]byte {
+	n := cache.VerifShards
+	byShard := make([][]byte, n)
+	found := 0
+
+	var extra [][]byte
+
+	for i := 0; found < n || len(extra) < 2; i++ {
+		k := []byte(fmt.Sprintf("shard-key-%05d", i))
+		sh := int(xxhash.Sum64(k) % uint64(n))
+
+		switch {
+		case byShard[sh] == nil:
+			byShard[sh] = k
+			found++
+		case (sh == 0 || sh == n-1) && len(extra) < 2 && (len(extra) == 0 || int(xxhash.Sum64(extra[0])%uint64(n)) != sh):
+			extra = append(extra, k)
+		}
+	}
+
+	return append(byShard, extra...)
+}
+
+// c07AllShards populates every shard and runs every sequence of <=3 batch / time operations, comparing with the
+// model after each of them.
+func c07AllShards(cc c07Cell, env *Env) CellResult {
+	res := CellResult{Exhaustive: true, Outcomes: map[string]int{}}
+	keys := allShardKeys()
+	cfg := cache.Config{Name: "c07", ExpirationJitter: -1, TimeToLive: 5 * time.Minute, DeleteExpiredAfter: time.Minute}
+
+	if cc.TTL == "unlimited" {
+		cfg.TimeToLive = cache.UnlimitedTTL
+	}
+
+	ops := []bop{
+		{name: "ExpireAll", kind: "expireall"},
+		{name: "DeleteAll", kind: "deleteall"},
+		{name: "Advance(6m)", kind: "advance", adv: 6 * time.Minute},
+		{name: "Cleanup", kind: "cleanup"},
+		{name: "WriteAll", kind: "writeall"},
+	}
+
+	var seqs [][]int
+
+	cur := [][]int{{}}
+	for l := 0; l < 3; l++ {
+		var next [][]int
+
+		for _, q := range cur {
+			for o := range ops {
+				next = append(next, append(append([]int{}, q...), o))
+			}
+		}
+
+		seqs = append(seqs, next...)
+		cur = next
+	}
+
+	seen := map[string]bool{}
+
+	for _, seq := range seqs {
+		vclock.Reset()
+
+		st := &bstate{b: newBackend(cc.Backend, cfg), m: ref.NewExpMap(cfg.TimeToLive), keys: keys, cfg: cfg}
+		writeAll := func() (string, bool) {
+			for k := range keys {
+				ttl := time.Duration(0)
+				if k%3 == 1 {
+					ttl = 10 * time.Second
+				}
+
+				if msg, ok := st.apply(bop{name: fmt.Sprintf("Write(shard %d)", k), kind: "write", key: k, val: k, ttl: ttl}); !ok {
+					return msg, false
+				}
+			}
+
+			return "", true
+		}
+
+		msg, ok := writeAll()
+
+		var names []string
+
+		for _, o := range seq {
+			if !ok {
+				break
+			}
+
+			names = append(names, ops[o].name)
+
+			if ops[o].kind == "writeall" {
+				msg, ok = writeAll()
+			} else {
+				msg, ok = st.apply(ops[o])
+			}
+
+			res.Transitions++
+		}
+
+		res.Execs++
+		res.States++
+
+		if !ok {
+			sig := "C07 " + cc.Backend + " all-shards " + classify(msg)
+			if !seen[sig] {
+				seen[sig] = true
+				res.Violations = append(res.Violations, Violation{Signature: sig, Detail: msg + "\n  one key per shard written, then: " + strings.Join(names, "; ")})
+			}
+
+			continue
+		}
+
+		res.Outcomes[fmt.Sprintf("all-shards len=%d", len(seq))]++
+
+		if res.Sample == nil && len(seq) == 3 {
+			res.Sample = map[string]interface{}{"keys": len(keys), "one_key_per_shard": true, "sequence": names}
+		}
+	}
+
+	return res
 }
 
 func c07NKeys(tier string) int {
@@ -380,6 +512,10 @@ func c07Run(c Cell, env *Env) CellResult {
 	var cc c07Cell
 	_ = json.Unmarshal([]byte(c.ID), &cc)
 
+	if cc.Keys == "allshards" {
+		return c07AllShards(cc, env)
+	}
+
 	depth := 3 // plus the first op = sequences of 4
 	if env.Thorough() {
 		depth = 4
@@ -425,7 +561,7 @@ func init() {
 		Rule: "explicit-state BFS over operation sequences (Write with default/+10s/-10s TTL, Read, Read under SkipRead, Delete, ExpireAll, DeleteAll, " +
 			"Load/Store, Advance 11s/6m) on keys {empty, 1 byte, 70 bytes, binary}; every transition calls the real backend and the reference map in lock-step and " +
 			"compares the return value, then Len and a full Walk; states are deduplicated on the canonical (key,value,expiry-now) set; " +
-			"an outcome is (operation class, observed result)",
+			"an outcome is (operation class, observed result); plus cells with one key in EVERY shard (and two in the first and last) under every sequence of <=3 operations from {ExpireAll, DeleteAll, Advance 6m, Cleanup, rewrite all}",
 		Assumptions: []string{
 			"virtual clock: time moves only by Advance operations and by a 1ns tick after every call",
 			"expiration jitter disabled (-1) so that expiry instants are exact; jitter is C10's subject",
